@@ -4,6 +4,7 @@ import (
 	"errors"
 	"fmt"
 	"math"
+	"math/rand/v2"
 	"os"
 	"path/filepath"
 	"strings"
@@ -59,8 +60,38 @@ type c01Case struct {
 	Doc  string `json:"doc"`
 }
 
+// c01AlikeCase: sequences of scalars that are spelled alike but are different values (1 and "1", true and "true",
+// null and "null", 1.5 and "1.5") under the operators that compare whole values.
+func c01AlikeCase(r *rand.Rand) (*ref.Expr, *ref.V) {
+	pool := []*ref.V{ref.IntV(1), ref.StrV("1"), ref.BoolV(true), ref.StrV("true"), ref.NullV(), ref.StrV("null"), ref.IntV(2), ref.StrV("2"),
+		ref.FloatV(1.5), ref.StrV("1.5"), ref.StrV("x"), ref.StrV(""), ref.BoolV(false), ref.StrV("false"), ref.SeqV(ref.IntV(1)), ref.SeqV(ref.StrV("1"))}
+	pick := func(n int) *ref.V {
+		s := &ref.V{K: ref.Seq, A: []*ref.V{}}
+		for i := 0; i < n; i++ {
+			s.A = append(s.A, pool[r.IntN(len(pool))].Copy())
+		}
+		return s
+	}
+	a, b := pick(2+r.IntN(5)), pick(1+r.IntN(3))
+	doc := ref.MapV(ref.KV{K: "a", V: a}, ref.KV{K: "b", V: b})
+	sub := ref.Bin("-", ref.Key("a"), ref.Key("b"))
+	switch r.IntN(4) {
+	case 0:
+		return sub, doc
+	case 1:
+		return ref.Bin("-", ref.Key("a"), ref.Lit(b)), doc
+	case 2:
+		return ref.Pipe(sub, ref.Fn0("length")), doc
+	default:
+		return &ref.Expr{Op: ref.OpAs, S: "r", L: ref.Key("b"), R: ref.Pipe(ref.Key("a"), ref.Fn1("map", ref.Pipe(ref.Bin("-", &ref.Expr{Op: ref.OpCollect, L: ref.Self()}, &ref.Expr{Op: ref.OpVar, S: "r"}), ref.Fn0("length"))))}, doc
+	}
+}
+
 func c01Gen(w *mon.Worker, idx int) (*ref.Expr, *ref.V) {
 	r := w.Rand(idx)
+	if idx%40 == 7 {
+		return c01AlikeCase(r)
+	}
 	p := gen.Default()
 	p.NoBigInt = true
 	p.SmallInts = r.IntN(10) < 7
